@@ -292,4 +292,265 @@ def all_lemmas(su):
     out = [("new", lambda: lemma_new(su)), ("prologue", lambda: lemma_prologue(su)), ("step", lambda: lemma_step(su))]
     for name, _ in public_mutators(su, sch):
         out.append(("api." + name, (lambda n: (lambda: lemma_api(su, n)))(name)))
+        out.append(("effects." + name, (lambda n: (lambda: lemma_api_effects(su, n)))(name)))
+    out.append(("queries", lambda: lemma_queries(su)))
+    out.append(("uf", lambda: lemma_uf(su)))
     return out
+
+
+# ---------------------------------------------------------------------------------------------
+# C05 / C04: functional post-conditions of the public API, decided on the real generated query functions
+def eq_matrix(st, t):
+    """{(x, y): literal 'x and y are allocated and in the same class'} by chasing the symbolic forest"""
+    c = V.CTX.c
+    U = V.CTX.U
+    r = {x: st.root_of(t, x, U) for x in range(U)}
+    return {(x, y): c.and_(st.in_range(t, x), st.in_range(t, y), V.int_eq(r[x], r[y])) for x in range(U) for y in range(U)}
+
+
+def call_query(I, su, sch, m, name, args):
+    return I.deref(I.call_fn(su.prog.methods[(sch.model, name)], T, list(args), self_val=m))
+
+
+def canonical_pre(st):
+    """no equate_ since the last close: all rows canonical, nothing uprooted"""
+    return M.conj(M.inv_struct(st, canon=True, check_elem_index=False) + M.inv_no_uprooted(st))
+
+
+def lemma_api_effects(su, name, given=None):
+    """functional post-conditions of one public mutator (C05).  `given` = (ctx, I, sch, model, canonical literal)
+    runs the same body from a state reached by a symbolic history (witness search) instead of an arbitrary one."""
+    from interp import ty_name
+    if given is None:
+        ctx, I, sch = su.fresh()
+        m = M.arbitrary_state(I, sch)
+        st = M.State(sch, m)
+        pre = [M.conj(inv_api(st, su.rules))]
+    else:
+        ctx, I, sch, m = given[:4]
+        st = M.State(sch, m)
+        pre = []
+    c = ctx.c
+    U = ctx.U
+    item = su.prog.methods[(sch.model, name)]
+    args = [symbolic_arg(ctx, sch, su, st, inp["ty"], "final.arg%d" % i, pre) for i, inp in enumerate(item["sig"]["inputs"][1:])]
+    eq0 = {t: eq_matrix(st, t) for t in sch.types}
+    len0 = {t: st.nelems(t) for t in sch.types}
+    roots0 = {t: [st.root_of(t, x, U) for x in range(U)] for t in sch.types}
+    goals = []
+    lab = "effects.%s: " % name
+    kind = None
+    rel = None
+    for pfx in ("insert_", "define_", "equate_", "new_"):
+        if name.startswith(pfx):
+            kind, rel = pfx[:-1], name[len(pfx):]
+    if kind == "new" and args:
+        kind = "new_enum"          # new_<enum>(case) is a define_<constructor>: its contract is C15's
+    if kind == "insert" and rel in sch.rels and not sch.rels[rel].is_typeset:
+        R = sch.rels[rel]
+        pre.append(canonical_pre(st))
+        want = [roots0[t][0] if False else st.root_of(t, a, U) for t, a in zip(R.types, args)]
+        want = [I.deref(w) for w in want]
+    if kind == "define" and rel in sch.rels:
+        R = sch.rels[rel]
+        pre.append(canonical_pre(st))
+        rargs = [st.root_of(t, a, U) for t, a in zip(R.types[:-1], args)]
+        defined0 = {w: c.orl([c.and2(st.rel_holds(rel, row), c.andl([V.int_eq(x, y) for x, y in zip(rargs, row[:-1])])) for row in M.rows_of(R, U) if row[-1] == w]) for w in range(U)}
+    ret = I.deref(I.call_fn(item, T, args, self_val=m))
+    panic, bound, compact = events_split(ctx)
+    eq1 = {t: eq_matrix(st, t) for t in sch.types}
+    if kind == "equate":
+        t = rel
+        a, b = args
+        for x in range(U):
+            for y in range(U):
+                ax = c.orl([c.and2(V.int_eq(a, z), eq0[t][(x, z)]) for z in range(U)])     # x ~ a
+                bx = c.orl([c.and2(V.int_eq(b, z), eq0[t][(x, z)]) for z in range(U)])
+                ay = c.orl([c.and2(V.int_eq(a, z), eq0[t][(z, y)]) for z in range(U)])
+                by = c.orl([c.and2(V.int_eq(b, z), eq0[t][(z, y)]) for z in range(U)])
+                gen = c.or_(eq0[t][(x, y)], c.and2(ax, by), c.and2(bx, ay))
+                goals.append((lab + "are_equal(%d,%d) is the generated equivalence" % (x, y), c.iff(eq1[t][(x, y)], gen)))
+    for t in sch.types:
+        if kind == "equate" and t == rel:
+            continue
+        for x in range(U):
+            for y in range(U):
+                both_old = c.and2(V.int_lt(x, len0[t]), V.int_lt(y, len0[t]))
+                goals.append((lab + "equality on %s unchanged for (%d,%d)" % (t, x, y), c.implies(both_old, c.iff(eq1[t][(x, y)], eq0[t][(x, y)]))))
+    if kind not in ("new", "define", "new_enum"):
+        for t in sch.types:
+            goals.append((lab + "no element of %s is allocated" % t, V.int_eq(st.nelems(t), len0[t])))
+    if kind == "new" and rel in sch.types:
+        t = rel
+        goals.append((lab + "returns the next id", V.int_eq(ret, len0[t])))
+        goals.append((lab + "allocates exactly one element", V.int_eq(st.nelems(t), V.int_bin(lambda x, y: x + y, len0[t], 1))))
+        for x in range(U):
+            goals.append((lab + "the new element is distinct from %d" % x, c.implies(V.int_lt(x, len0[t]), -c.orl([c.and2(V.int_eq(ret, z), eq1[t][(x, z)]) for z in range(U)]))))
+        # visible at once through iter_<type>
+        it = I.to_iter(call_query(I, su, sch, m, "iter_" + t, []), T)
+        goals.append((lab + "iter_%s yields the new element exactly once" % t, V.int_eq(V.count_lits([c.and2(g, V.int_eq(x, ret)) for g, x in it.items], cap=2), 1)))
+    if kind == "insert" and rel in sch.rels and not sch.rels[rel].is_typeset:
+        R = sch.rels[rel]
+        if R.kind == "pred":
+            q = call_query(I, su, sch, m, rel, args)
+            goals.append((lab + "the predicate query reports the tuple at once", lit(q)))
+        else:
+            q = call_query(I, su, sch, m, rel, args[:-1])
+            goals.append((lab + "the function is defined on the arguments at once", q.some))
+        it = I.to_iter(call_query(I, su, sch, m, "iter_" + rel, []), T)
+        cnt = V.count_lits([c.and2(g, c.andl([V.int_eq(I.deref(a), w) for a, w in zip((x if isinstance(x, tuple) else (x,)), want)])) for g, x in it.items], cap=2)
+        goals.append((lab + "iter_%s yields the canonical tuple exactly once" % rel, V.int_eq(cnt, 1)))
+    if kind == "define" and rel in sch.rels:
+        t = R.types[-1]
+        was = c.orl(list(defined0.values()))
+        goals.append((lab + "returns an existing value when the function is defined", c.implies(was, c.orl([c.and2(defined0[w], V.int_eq(ret, w)) for w in range(U)]))))
+        goals.append((lab + "allocates nothing when the function is defined", c.implies(was, V.int_eq(st.nelems(t), len0[t]))))
+        goals.append((lab + "returns a fresh element otherwise", c.implies(-was, V.int_eq(ret, len0[t]))))
+        goals.append((lab + "allocates exactly one element otherwise", c.implies(-was, V.int_eq(st.nelems(t), V.int_bin(lambda x, y: x + y, len0[t], 1)))))
+        q = call_query(I, su, sch, m, rel, args)
+        goals.append((lab + "afterwards the function evaluates to the returned element", c.and2(q.some, V.int_eq(st.root_of(t, q.val, U + 1), st.root_of(t, ret, U + 1)))))
+        for t2 in sch.types:
+            if t2 != t:
+                goals.append((lab + "no element of %s is allocated" % t2, V.int_eq(st.nelems(t2), len0[t2])))
+    goals += [(lab + "no panic: " + msg, -g) for msg, g in panic]
+    g = Goal("effects." + name, ctx.assumes + pre + [-bound], goals, [])
+    g.args = args
+    return ctx, g
+
+
+def lemma_queries(su):
+    """query functions on an arbitrary between-closes state: root_ is an idempotent representative inside the class,
+    are_equal_ is the relation of the union-find, identity on unallocated ids (C05); on canonical states the point
+    queries, the iterators and equal arguments agree (C04)"""
+    ctx, I, sch = su.fresh()
+    c = ctx.c
+    U = ctx.U
+    m = M.arbitrary_state(I, sch)
+    st = M.State(sch, m)
+    pre = [M.conj(inv_api(st, su.rules))]
+    goals = []
+    for t in sch.types:
+        eq = eq_matrix(st, t)
+        x = ctx.fresh_int("q.%s.x" % t, 0, U)        # U itself: an id beyond every allocated element
+        y = ctx.fresh_int("q.%s.y" % t, 0, U - 1)
+        rx = call_query(I, su, sch, m, "root_" + t, [x])
+        rrx = call_query(I, su, sch, m, "root_" + t, [rx])
+        goals.append(("queries.root_%s: idempotent" % t, V.int_eq(rx, rrx)))
+        goals.append(("queries.root_%s: identity on unallocated ids" % t, c.implies(-st.in_range(t, x), V.int_eq(rx, x))))
+        goals.append(("queries.root_%s: representative inside the class" % t, c.implies(st.in_range(t, x), c.orl([c.and_(V.int_eq(x, a), V.int_eq(rx, b), eq[(a, b)]) for a in range(U) for b in range(U)]))))
+        ae = call_query(I, su, sch, m, "are_equal_" + t, [x, y])
+        goals.append(("queries.are_equal_%s: is the union-find relation" % t, c.implies(c.and2(st.in_range(t, x), st.in_range(t, y)), c.iff(lit(ae), c.orl([c.and_(V.int_eq(x, a), V.int_eq(y, b), eq[(a, b)]) for a in range(U) for b in range(U)])))))
+    # canonical part (C04)
+    canon = canonical_pre(st)
+    for t in sch.types:
+        it = I.to_iter(call_query(I, su, sch, m, "iter_" + t, []), T)
+        for a in range(U):
+            cnt = V.count_lits([c.and2(g, V.int_eq(x, a)) for g, x in it.items], cap=2)
+            goals.append(("queries.canon.iter_%s: yields exactly the roots, once (%d)" % (t, a), c.implies(canon, V.int_eq(cnt, V.int_ite(st.is_root(t, a), 1, 0)))))
+    for R in sch.user_rels():
+        it = I.to_iter(call_query(I, su, sch, m, "iter_" + R.name, []), T)
+        rows = [(g, tuple(I.deref(z) for z in (x if isinstance(x, tuple) else (x,)))) for g, x in it.items]
+        args = [ctx.fresh_int("q.%s.a%d" % (R.name, i), 0, U - 1) for i in range(R.arity)]
+        args2 = [ctx.fresh_int("q.%s.b%d" % (R.name, i), 0, U - 1) for i in range(R.arity)]
+        alloc = c.andl([c.and2(st.in_range(t, a), st.in_range(t, b)) for t, a, b in zip(R.types, args, args2)])
+        same = c.andl([V.int_eq(st.root_of(t, a, U), st.root_of(t, b, U)) for t, a, b in zip(R.types, args, args2)])
+        rargs = [st.root_of(t, a, U) for t, a in zip(R.types, args)]
+        for row in M.rows_of(R, U):
+            cnt = V.count_lits([g for g, x in rows if all(isinstance(z, int) for z in x) and tuple(x) == row], cap=2)
+            goals.append(("queries.canon.iter_%s: yields %s exactly if it holds, once" % (R.name, list(row)), c.implies(canon, V.int_eq(cnt, V.int_ite(st.rel_holds(R.name, row), 1, 0)))))
+        if R.kind == "pred":
+            q1 = lit(call_query(I, su, sch, m, R.name, args))
+            q2 = lit(call_query(I, su, sch, m, R.name, args2))
+            goals.append(("queries.canon.%s: invariant under equal arguments" % R.name, c.implies(c.and_(canon, alloc, same), c.iff(q1, q2))))
+            initer = c.orl([c.and2(g, c.andl([V.int_eq(z, w) for z, w in zip(x, rargs)])) for g, x in rows])
+            goals.append(("queries.canon.%s: agrees with iter_%s" % (R.name, R.name), c.implies(c.and2(canon, alloc), c.iff(q1, initer))))
+        elif R.kind == "func":
+            q1 = call_query(I, su, sch, m, R.name, args[:-1])
+            q2 = call_query(I, su, sch, m, R.name, args2[:-1])
+            alloc1 = c.andl([c.and2(st.in_range(t, a), st.in_range(t, b)) for t, a, b in zip(R.types[:-1], args[:-1], args2[:-1])])
+            same1 = c.andl([V.int_eq(st.root_of(t, a, U), st.root_of(t, b, U)) for t, a, b in zip(R.types[:-1], args[:-1], args2[:-1])])
+            goals.append(("queries.canon.%s: definedness invariant under equal arguments" % R.name, c.implies(c.and_(canon, alloc1, same1), c.iff(q1.some, q2.some))))
+            # the value returned is a row of the graph; if the graph is single-valued on the arguments it is *the* value
+            isrow = c.orl([c.and2(g, c.andl([V.int_eq(z, w) for z, w in zip(x[:-1], rargs[:-1])] + [V.int_eq(x[-1], q1.val)])) for g, x in rows]) if q1.some != F else F
+            anyrow = c.orl([c.and2(g, c.andl([V.int_eq(z, w) for z, w in zip(x[:-1], rargs[:-1])])) for g, x in rows])
+            goals.append(("queries.canon.%s: Some(v) only for a row of iter_%s" % (R.name, R.name), c.implies(c.and_(canon, alloc1, q1.some), isrow)))
+            goals.append(("queries.canon.%s: defined iff iter_%s has a row for the arguments" % (R.name, R.name), c.implies(c.and2(canon, alloc1), c.iff(q1.some, anyrow))))
+    panic, bound, compact = events_split(ctx)
+    goals += [("queries.no-panic: " + msg, -g) for msg, g in panic]
+    return ctx, Goal("queries", ctx.assumes + pre + [-bound], goals, [])
+
+
+def lemma_uf(su):
+    """the real unification.rs from an arbitrary valid parent forest (C05, union-find half)"""
+    from values import StructV, VecA
+    ctx, I, sch = su.fresh()
+    c = ctx.c
+    U = ctx.U
+    n = ctx.fresh_int("uf.len", 0, U)
+    parents = VecA([ctx.fresh_int("uf.par%d" % i, 0, U - 1) for i in range(U)], n, U)
+    uf = StructV("Unification", {"parents": parents, "sizes": VecA(None, 0, U)})
+
+    class St:      # minimal State-like view for inv_unionfind-style helpers
+        pass
+
+    def root_of(x):
+        cur = x
+        for _ in range(U):
+            nxt = V.UNDEF
+            for k, gk in V.cases_of(cur).items():
+                if k < U:
+                    nxt = V.merge(gk, parents.s[k], nxt)
+            cur = nxt
+        return cur
+    pre = [-V.int_lt(U, n)]
+    for i in range(U):
+        inr = V.int_lt(i, n)
+        pre.append(c.implies(inr, V.int_lt(parents.s[i], n)))
+        r = root_of(i)
+        pre.append(c.implies(inr, V.int_eq(r, V.merge(T, r, r)) if False else V.int_eq(root_of(r) if False else r, _step(parents, r, U))))
+    roots0 = [root_of(i) for i in range(U)]
+    x = ctx.fresh_int("uf.x", 0, U - 1)
+    y = ctx.fresh_int("uf.y", 0, U - 1)
+    pre += [V.int_lt(x, n), V.int_lt(y, n)]
+    goals = []
+    M_ = su.prog.methods
+    rc = I.deref(I.call_fn(M_[("Unification", "root_const")], T, [x], self_val=uf))
+    goals.append(("uf.root_const returns the root of the forest", c.orl([c.and2(V.int_eq(x, a), V.int_eq(rc, roots0[a])) for a in range(U)])))
+    r = I.deref(I.call_fn(M_[("Unification", "root")], T, [x], self_val=uf))
+    goals.append(("uf.root == root_const", V.int_eq(r, rc)))
+    roots1 = [root_of(i) for i in range(U)]
+    for a in range(U):
+        goals.append(("uf.root (path compression) keeps the root of %d" % a, c.implies(V.int_lt(a, n), V.int_eq(roots1[a], roots0[a]))))
+    # union of two distinct roots merges exactly their classes
+    rx, ry = roots1_of(roots1, x, U), roots1_of(roots1, y, U)
+    distinct = -V.int_eq(rx, ry)
+    ev0 = len(ctx.events)
+    I.call_fn(M_[("Unification", "union_roots_into")], distinct, [rx, ry], self_val=uf)
+    roots2 = [root_of(i) for i in range(U)]
+    for a in range(U):
+        for b in range(U):
+            same1 = V.int_eq(roots1[a], roots1[b])
+            gen = c.or_(same1, c.and2(V.int_eq(roots1[a], rx), V.int_eq(roots1[b], ry)), c.and2(V.int_eq(roots1[a], ry), V.int_eq(roots1[b], rx)))
+            goals.append(("uf.union_roots_into merges exactly the two classes (%d,%d)" % (a, b),
+                          c.implies(c.and_(distinct, V.int_lt(a, n), V.int_lt(b, n)), c.iff(V.int_eq(roots2[a], roots2[b]), gen))))
+    goals.append(("uf.union_roots_into makes the second argument the root", c.implies(distinct, V.int_eq(roots1_of(roots2, x, U), ry))))
+    goals.append(("uf.len unchanged", V.int_eq(parents.n, n)))
+    panic, bound, compact = events_split(ctx)
+    goals += [("uf.no-panic: " + msg, -g) for msg, g in panic]
+    return ctx, Goal("uf", ctx.assumes + pre + [-bound], goals, [("two classes are merged", distinct)])
+
+
+def _step(parents, r, U):
+    nxt = V.UNDEF
+    for k, gk in V.cases_of(r).items():
+        if k < U:
+            nxt = V.merge(gk, parents.s[k], nxt)
+    return nxt
+
+
+def roots1_of(roots, x, U):
+    r = V.UNDEF
+    for k, gk in V.cases_of(x).items():
+        if k < U:
+            r = V.merge(gk, roots[k], r)
+    return r
